@@ -16,7 +16,8 @@ use serde_json::{json, Value};
 use crate::exec::{RunStats, Violation};
 use crate::hist::{self, Trace};
 
-pub const WARMUP_RUNS: u64 = 32;
+pub const WARMUP_RUNS: u64 = 18;
+pub const WARMUP_THREADS: usize = 16;
 pub const VERIF_DIR: &str = "/verif";
 
 #[derive(Clone, Debug, Serialize, Deserialize)]
@@ -105,8 +106,13 @@ fn sample_of(t: &Trace) -> Value {
 
 /// Worker side: run `count` runs starting at `start` with `stride`, print results as lines.
 pub fn warm_up() {
+    crate::exec::warm_up_statics(WARMUP_THREADS);
+    // then real runs of every history generator, so that code paths the kitchen-sink world does
+    // not reach have also been executed on threads of every pool-shard residue
     for i in 0..WARMUP_RUNS {
-        let _ = hist::run_seed(crate::exec::Check::C06, 0x57a7_1c00, i);
+        for c in [crate::exec::Check::C06, crate::exec::Check::C08, crate::exec::Check::C07, crate::exec::Check::C05] {
+            let _ = hist::run_seed(c, 0x57a7_1c00, i);
+        }
     }
 }
 
